@@ -1,4 +1,5 @@
 import BufModel.Filter
+import BufModel.GenBatch
 import BufProofs.Lemmas.FilterClosureLemmas
 import Driver.Util
 /-
@@ -19,6 +20,12 @@ import Driver.Util
      omsg     = (id ((fieldId oneof+1|0)...) nOneofs (extId...) (omsg...) (enumId...))
   For an error the classes are those of the single-include runs that fail (the Go code visits the
   includes in map order, so only the set is deterministic), or the class of the run itself.
+
+     g <plugin>;<plugin>;…      one `buf generate` run with per-plugin type filters
+     plugin = <types>|<exclude_types>|a/d|<class>      names hex-encoded, `,`-separated ("-" = the
+              empty name, nothing = no names); a/d = strategy all / directory; class = class of the
+              plugin's OWN filter result (plugins whose filtered images are equal share a class)
+  Answer: the class of the image that reaches each plugin, `,`-separated (BufModel.GenBatch).
 -/
 namespace Driver.C12
 open BufModel.Filter
@@ -138,7 +145,21 @@ def answer (cfg : Cfg) (img : Image) (o : Opts) : String :=
     let cs := if singles.isEmpty then [e.tag] else dedupSorted singles
     "err\t" ++ ",".intercalate cs
 
+def names? (s : String) : Option (List BufModel.Path.Str) :=
+  if s.isEmpty then some [] else (s.splitOn ",").mapM fun h => (Driver.hexDecode h).map String.toList
+
+def plugin? (s : String) : Option (BufModel.GenBatch.PCfg × Nat) :=
+  match s.splitOn "|" with
+  | [ts, es, st, c] => do
+    let strat ← if st = "a" then some true else if st = "d" then some false else none
+    some (⟨← names? ts, ← names? es, strat, []⟩, ← c.toNat?)
+  | _ => none
+
 def handle : List String → String
+  | ["g", ps] =>
+    match (ps.splitOn ";").mapM plugin? with
+    | some l => ",".intercalate ((BufModel.GenBatch.observedClasses l).map toString)
+    | none => "bad-op"
   | "f" :: i :: o :: rest =>
     match parseSexp i, parseSexp o with
     | some si, some so =>
